@@ -36,7 +36,7 @@ M = [
   """        if self.phase == Phase::Mark && false {
             self.root_needs_trace = true;
         }"""),
- ("m03_link_no_sweep_prev_fixup", ["C01", "C04", "C05", "C10"], "src/context.rs",
+ ("m03_link_no_sweep_prev_fixup", ["C02", "C04", "C10"], "src/context.rs",
   """        if self.phase == Phase::Sweep && self.sweep_prev.get().is_none() {
             self.sweep_prev.set(self.all.get());
         }""",
@@ -105,7 +105,7 @@ M = [
             return false;
         }
         true"""),
- ("m11_trace_weak_noop", ["C05", "C02"], "src/context.rs",
+ ("m11_trace_weak_noop", ["C05"], "src/context.rs",
   """        if header.color() == GcColor::White {
             header.set_color(GcColor::WhiteWeak);
             self.metrics.mark_gc_marked(1);
@@ -318,6 +318,116 @@ M = [
  ("m35_collect_debt_stops_at_sleep", ["C09"], "src/arena.rs",
   """                .do_collection(&self.root, RunUntil::PayDebt, Stop::Full);""",
   """                .do_collection(&self.root, RunUntil::PayDebt, Stop::FinishCycle);"""),
+ ("m36_dealloc_layout_wrong_len", ["C17", "C04"], "src/slice.rs",
+  """impl<H, E, M> AllocMeta<SliceWithHeader<H, E>, M> for SliceWithHeaderPtrMeta {
+    #[inline]
+    fn layout(_type_meta: &M, len: usize) -> Option<Layout> {
+        SliceWithHeader::<H, E>::layout(len)
+    }
+}""",
+  """impl<H, E, M> AllocMeta<SliceWithHeader<H, E>, M> for SliceWithHeaderPtrMeta {
+    #[inline]
+    fn layout(_type_meta: &M, len: usize) -> Option<Layout> {
+        // rounds the length up to an even number
+        SliceWithHeader::<H, E>::layout((len + 1) & !1)
+    }
+}"""),
+ ("m37_thin_len_off_for_long_slices", ["C17", "C19"], "src/slice.rs",
+  """    #[inline]
+    fn from_thin(_type_meta: &M, ptr: *const (), len: usize) -> *const [E] {
+        SliceWithHeader::<(), E>::ptr_from_thin(ptr, len) as *const [E]
+    }""",
+  """    #[inline]
+    fn from_thin(_type_meta: &M, ptr: *const (), len: usize) -> *const [E] {
+        SliceWithHeader::<(), E>::ptr_from_thin(ptr, if len > 15 { 15 } else { len }) as *const [E]
+    }"""),
+ ("m38_swh_layout_not_padded", ["C17"], "src/slice.rs",
+  """        Some(header_layout.extend(array_layout).ok()?.0.pad_to_align())""",
+  """        Some(header_layout.extend(array_layout).ok()?.0)"""),
+ ("m39_builder_drop_runs_destructor", ["C18"], "src/slice.rs",
+  """            let ptr = SliceWithHeader::<H, E>::ptr_from_thin(ptr, self.init_length);
+            core::ptr::drop_in_place(ptr.cast_mut());""",
+  """            let ptr = SliceWithHeader::<H, E>::ptr_from_thin(ptr, self.init_length + 1);
+            core::ptr::drop_in_place(ptr.cast_mut());"""),
+ ("m40_init_length_bumped_before_write", ["C18", "C11"], "src/slice.rs",
+  """                element.write(create_element(i));
+                self.init_length = i + 1;""",
+  """                self.init_length = i + 1;
+                element.write(create_element(i));"""),
+ ("m41_builder_drop_leaks", ["C18"], "src/slice.rs",
+  """            core::ptr::drop_in_place(ptr.cast_mut());
+
+            ManuallyDrop::drop(&mut self.inner);""",
+  """            core::ptr::drop_in_place(ptr.cast_mut());"""),
+ ("m42_copy_slice_no_length_check", ["C18"], "src/slice.rs",
+  """        assert!(elements.len() == len, "`elements` is not length {len}");
+        unsafe {
+            ptr::copy_nonoverlapping(
+                elements.as_ptr(),
+                self.slice_ptr() as *mut E,
+                elements.len(),
+            );""",
+  """        unsafe {
+            ptr::copy_nonoverlapping(
+                elements.as_ptr(),
+                self.slice_ptr() as *mut E,
+                elements.len().min(len),
+            );"""),
+ ("m43_zst_cache_ignores_alignment", ["C19"], "src/zst_cache.rs",
+  """        if mem::size_of::<T>() == 0 && mem::align_of::<T>() <= MAX_ALIGN {
+            debug_assert!(Gc::as_ptr(self.cached_ptr).align_offset(mem::align_of::<T>()) == 0);""",
+  """        if mem::size_of::<T>() == 0 {"""),
+ ("m45_header_live_flag_in_wrong_bit", ["C05", "C04", "C01"], "src/gc_ptr.rs",
+  """    pub(crate) fn set_live(&self, is_live: bool) {
+        self.tagged_vtable
+            .update(|p| tagged_ptr::set_bool::<0x8, _>(p, is_live));
+    }""",
+  """    pub(crate) fn set_live(&self, is_live: bool) {
+        self.tagged_vtable
+            .update(|p| tagged_ptr::set_bool::<0x4, _>(p, is_live));
+    }"""),
+ ("m46_mutate_root_no_barrier", ["C01", "C06"], "src/arena.rs",
+  """        F: for<'gc> FnOnce(&'gc Mutation<'gc>, &'gc mut Root<'gc, R>) -> T,
+    {
+        self.context.root_barrier();""",
+  """        F: for<'gc> FnOnce(&'gc Mutation<'gc>, &'gc mut Root<'gc, R>) -> T,
+    {"""),
+ ("m47_try_map_root_no_barrier", ["C06"], "src/arena.rs",
+  """        R2: for<'a> Rootable<'a>,
+        for<'a> Root<'a, R2>: Sized,
+    {
+        self.context.root_barrier();
+        let new_root: Root<'static, R2> = unsafe {
+            let mc: &'static Mutation<'_> = &*(self.context.mutation_context() as *const _);
+            f(mc, self.root)?
+        };""",
+  """        R2: for<'a> Rootable<'a>,
+        for<'a> Root<'a, R2>: Sized,
+    {
+        let new_root: Root<'static, R2> = unsafe {
+            let mc: &'static Mutation<'_> = &*(self.context.mutation_context() as *const _);
+            f(mc, self.root)?
+        };"""),
+ ("m49_sweep_skips_first_after_alloc", ["C02", "C04"], "src/context.rs",
+  """                            cx.sweep = cx.all.get();""",
+  """                            cx.sweep = cx.all.get().and_then(|p| if cx.metrics.total_gc_count() % 7 == 3 { p.header().next() } else { Some(p) });
+                            if cx.sweep.is_some() && !cx.sweep.zip(cx.all.get()).is_some_and(|(a, b)| a.addr_eq(b)) {
+                                cx.sweep_prev.set(cx.all.get());
+                            }"""),
+ ("m50_dynamic_root_drop_after_arena", ["C14"], "src/dynamic_roots.rs",
+  """        if let Some(slots) = self.slots.upgrade() {
+            slots.borrow_mut().dec(self.index);
+        }
+    }
+}
+
+impl<R: for<'gc> Rootable<'gc>> Clone for DynamicRoot<R> {""",
+  """        let slots = self.slots.upgrade().expect("root set is gone");
+        slots.borrow_mut().dec(self.index);
+    }
+}
+
+impl<R: for<'gc> Rootable<'gc>> Clone for DynamicRoot<R> {"""),
 ]
 
 def sh(*a, **k):
